@@ -1,7 +1,6 @@
 package main
 
 import (
-	"strconv"
 	"encoding/json"
 	"flag"
 	"fmt"
@@ -9,32 +8,33 @@ import (
 	"os"
 	"path/filepath"
 	"sort"
+	"strconv"
 	"strings"
 	"sync"
 	"time"
 )
 
 type Result struct {
-	Oblig     string   `json:"obligation"`
-	Props     []string `json:"props"`
-	Status    string   `json:"status"` // proved | refuted | unknown | undecided | stale
-	Reason    string   `json:"reason,omitempty"`
-	Solver    string   `json:"solver,omitempty"`
-	Millis    int64    `json:"solver_ms"`
-	ExecMs    int64    `json:"vcgen_ms"`
-	Paths     int      `json:"paths"`
-	FailPaths []string `json:"failing_paths,omitempty"`
-	Query     string   `json:"query_file,omitempty"`
-	Model     string   `json:"-"`
-	Funcs     []string `json:"-"`
-	Trusted   []string `json:"-"`
-	Kind      string   `json:"kind"`
-	Vacuity   bool     `json:"vacuity,omitempty"`
-	Bounded   bool     `json:"bounded,omitempty"`
-	Location  string   `json:"contract"`
+	Oblig     string    `json:"obligation"`
+	Props     []string  `json:"props"`
+	Status    string    `json:"status"` // proved | refuted | unknown | undecided | stale
+	Reason    string    `json:"reason,omitempty"`
+	Solver    string    `json:"solver,omitempty"`
+	Millis    int64     `json:"solver_ms"`
+	ExecMs    int64     `json:"vcgen_ms"`
+	Paths     int       `json:"paths"`
+	FailPaths []string  `json:"failing_paths,omitempty"`
+	Query     string    `json:"query_file,omitempty"`
+	Model     string    `json:"-"`
+	Funcs     []string  `json:"-"`
+	Trusted   []string  `json:"-"`
+	Kind      string    `json:"kind"`
+	Vacuity   bool      `json:"vacuity,omitempty"`
+	Bounded   bool      `json:"bounded,omitempty"`
+	Location  string    `json:"contract"`
 	Witness   []witness `json:"-"` // skolem constants of a top-level universal clause (replay)
-	Thorough  bool     `json:"-"` // item of the thorough tier
-	BudgetMs  int64    `json:"-"` // solver budget of this obligation (item option timeout=<seconds>); 0 = default
+	Thorough  bool      `json:"-"` // item of the thorough tier
+	BudgetMs  int64     `json:"-"` // solver budget of this obligation (item option timeout=<seconds>); 0 = default
 }
 
 // partSlots bounds the number of per-goal solver runs in flight (across all harnesses).
